@@ -274,6 +274,7 @@ pub fn selftest_lines(seed: u64, n: usize) -> Vec<String> {
         if !is_zero(&b) {
             out.push(format!("divfloor {} {} {}", hex(&a), hex(&b), hex(&div_floor(&a, &b))));
         }
+        out.push(format!("mul {} {} {}", hex(&a), hex(&b), hex(&mul(&a, &b))));
         if !is_zero(&b) {
             // k <= r
             let k = if ucmp(&a, &b) == Ordering::Greater { sub(&a, &b).iter().zip(b.iter()).map(|(x, y)| x & y).collect::<Vec<u8>>() } else { a.clone() };
@@ -302,23 +303,74 @@ pub fn shr1(a: &mut [u8]) {
     }
 }
 
-/// floor(num / den) for unsigned LE byte strings of any lengths (den > 0); result has num.len() bytes
+/// floor(num / den) for unsigned LE byte strings of any lengths (den > 0); result has num.len() bytes.
+/// Binary long division (shift the remainder left by one bit, bring down a bit, subtract if possible) on 64-bit
+/// limbs, in place; cross-checked against Python integers by `sim refint-selftest`.
 pub fn div_floor(num: &[u8], den: &[u8]) -> Vec<u8> {
     assert!(!is_zero(den));
-    let n = num.len().max(den.len()) + 1;
-    let mut d = vec![0u8; n];
-    d[..den.len()].copy_from_slice(den);
-    let mut rem = vec![0u8; n];
+    let nl = (num.len().max(den.len()) + 1 + 7) / 8;
+    let to_limbs = |b: &[u8]| -> Vec<u64> {
+        let mut v = vec![0u64; nl];
+        for (i, x) in b.iter().enumerate() {
+            v[i / 8] |= (*x as u64) << (8 * (i % 8));
+        }
+        v
+    };
+    let d = to_limbs(den);
+    let mut rem = vec![0u64; nl];
     let mut q = vec![0u8; num.len()];
     for bit in (0..num.len() * 8).rev() {
-        shl1(&mut rem);
-        rem[0] |= (num[bit / 8] >> (bit % 8)) & 1;
-        if ucmp(&rem, &d) != Ordering::Less {
-            rem = sub(&rem, &d);
+        // rem = rem << 1 | bit
+        let mut c = ((num[bit / 8] >> (bit % 8)) & 1) as u64;
+        for x in rem.iter_mut() {
+            let n = *x >> 63;
+            *x = (*x << 1) | c;
+            c = n;
+        }
+        // rem >= d ?
+        let mut ge = true;
+        for i in (0..nl).rev() {
+            if rem[i] != d[i] {
+                ge = rem[i] > d[i];
+                break;
+            }
+        }
+        if ge {
+            let mut br = 0u64;
+            for i in 0..nl {
+                let (t, b1) = rem[i].overflowing_sub(d[i]);
+                let (t, b2) = t.overflowing_sub(br);
+                rem[i] = t;
+                br = (b1 | b2) as u64;
+            }
             q[bit / 8] |= 1 << (bit % 8);
         }
     }
     q
+}
+
+/// a * b, exact: a.len() + b.len() bytes
+pub fn mul(a: &[u8], b: &[u8]) -> Vec<u8> {
+    let mut out = vec![0u8; a.len() + b.len()];
+    for (i, &x) in a.iter().enumerate() {
+        if x == 0 {
+            continue;
+        }
+        let mut c = 0u32;
+        for (j, &y) in b.iter().enumerate() {
+            let t = out[i + j] as u32 + x as u32 * y as u32 + c;
+            out[i + j] = t as u8;
+            c = t >> 8;
+        }
+        let mut k = i + b.len();
+        while c > 0 {
+            let t = out[k] as u32 + c;
+            out[k] = t as u8;
+            c = t >> 8;
+            k += 1;
+        }
+    }
+    out
 }
 
 /// ceil(k * 2^(8*w) / r) as a w-byte value, for k <= r (k = r gives 2^(8w), returned as None)
